@@ -19,6 +19,8 @@ def syms_of(u, acc):
         acc.add(u["c"])
     if u["k"] == "cls":
         acc.update(u["s"])
+    if u["k"] == "pcls":
+        acc.update([1, 2, 3, 4])
     for f in ("a", "b"):
         if isinstance(u.get(f), dict):
             syms_of(u[f], acc)
